@@ -27,7 +27,7 @@ class Variant:
     name: str
     file: str
     edits: list[tuple[str, str]]
-    expect: str            # "fire" | "silent"
+    expect: str            # "fire" | "silent" | "undecided"
     rule: str = ""         # rule id that must report (fire only)
     note: str = ""
     extra: dict[str, Any] = field(default_factory=dict)
@@ -83,6 +83,10 @@ def _run_variant(args: tuple[str, Variant, str]) -> dict[str, Any]:
         if var.expect == "fire":
             ok = rc == 1 and (not var.rule or any(
                 r.startswith(var.rule) for r in fired_rules))
+        elif var.expect == "undecided":
+            # a form no rule can normalise: the check must refuse to decide
+            # (exit 2), neither pass nor report a violation
+            ok = rc == 2 and "VIOLATION" not in out
         else:
             ok = rc == 0
         return {"name": var.name, "status": "ok" if ok else "FAILED",
